@@ -351,6 +351,11 @@ class Crate:
                 d += 1
             elif c in ')]}':
                 d -= 1
+                if c == '}' and d == 0:
+                    # a block statement (loop / if / match ...) ends here unless it continues as an expression
+                    rest = s[j + 1:be - 1].lstrip()
+                    if rest and not rest.startswith(('.', '?', ';', ',', ')', 'else')):
+                        last = j + 1
             elif c == ';' and d == 0:
                 last = j + 1
             j += 1
